@@ -52,21 +52,26 @@ Export ==
 -----------------------------------------------------------------------------
 (* ArgSpec (OciFuncsMC_args.cfg): the cases again over the special argument values:        *)
 (* 18 methods x {each field alone, all, none, all but the own} x constructor x every       *)
-(* argument profile of the method (156 in total), plus the nil table per profile.          *)
+(* argument profile of the method (156 in total), plus the nil table per profile;         *)
 ArgFamily(m) == {{f} : f \in Methods} \cup {Methods, {}, Methods \ {m}}
+\* ... and over the contexts: the same field sets under a cancelled, an expired and the nil
+\* context, with generated ordinary arguments (av = <<>>).
 ArgInit ==
   c \in UNION {
-         {[m |-> m, F |-> F, custom |-> cu, nilRecv |-> FALSE, av |-> av] :
+         {[m |-> m, F |-> F, custom |-> cu, nilRecv |-> FALSE, av |-> av, cx |-> "live"] :
               F \in ArgFamily(m), cu \in BOOLEAN, av \in ArgProfiles(m)}
-         \cup {[m |-> m, F |-> {}, custom |-> FALSE, nilRecv |-> TRUE, av |-> av] : av \in ArgProfiles(m)}
+         \cup {[m |-> m, F |-> {}, custom |-> FALSE, nilRecv |-> TRUE, av |-> av, cx |-> "live"] : av \in ArgProfiles(m)}
+         \cup {[m |-> m, F |-> F, custom |-> cu, nilRecv |-> FALSE, av |-> <<>>, cx |-> x] :
+              F \in ArgFamily(m), cu \in BOOLEAN, x \in CtxVals \ {"live"}}
+         \cup {[m |-> m, F |-> {}, custom |-> FALSE, nilRecv |-> TRUE, av |-> <<>>, cx |-> x] : x \in CtxVals \ {"live"}}
        : m \in Methods}
 ArgSpec == ArgInit /\ [][UNCHANGED c]_c
 ArgProps == PropsAt(c.m, c.F, c.custom, c.nilRecv) /\ ArgsIrrelevantAt(c.m, c.F, c.custom, c.nilRecv)
 ArgExport ==
-  LET o == CallWithArgs(c.m, c.F, c.custom, c.nilRecv, c.av)
+  LET o == CallWithArgs(c.m, c.F, c.custom, c.nilRecv, c.av, c.cx)
       x == Effects(c.m, o) IN
   \A s \in SretsFor(o) :
-    PrintT(<<"MBT", ToJson([m |-> c.m, F |-> c.F, custom |-> c.custom, nilrecv |-> c.nilRecv, sret |-> s, av |-> c.av,
+    PrintT(<<"MBT", ToJson([m |-> c.m, F |-> c.F, custom |-> c.custom, nilrecv |-> c.nilRecv, sret |-> s, av |-> c.av, cx |-> c.cx,
                             pred |-> o.kind, to |-> o.to, ctors |-> x.ctors,
                             values |-> x.values, error |-> x.error, yields |-> x.yields])>>)
 -----------------------------------------------------------------------------
